@@ -124,8 +124,22 @@ func main() {
 	add("C19", "D10-other-package-named-C", "another package the name C", "ImportName(x.y/a, \"C\") together with Qual(\"C\", x): two imports named C", "cgo",
 		map[string]interface{}{"intro": "qual", "preamble": nil, "others": "one", "prefix": "", "hint": "otherC", "cfirst": false})
 
+	// KF1: a finding that is recorded, not repaired (the root cause is go/printer of the installed toolchain)
+	kfSrc := "package p\n\nfunc f(a bool) {\n\tif (a || Pair[int, string]{} == x) {\n\t}\n\tfor range (&Pair[int, string]{}.F) {\n\t}\n}\n"
+	kfWhat := "a parenthesised if/for/switch/range header expression that contains a composite literal of an instantiated generic type, e.g. `if (a || Pair[int, string]{} == x) {`: File.Render returns nil but gofmt (go/printer.stripParens of the installed toolchain, which only recognises identifiers and selectors as type names) removes the protecting parentheses and the output no longer parses; gofmt does the same to a hand-written file"
+	fs = append(fs, finding{Property: "C01", ID: "KF1-gofmt-strips-parens-around-generic-composite-literal", Status: "known", What: kfWhat, Line: "known: property=C01 " + kfWhat,
+		Check: "known_finding_probe", Example: raw(map[string]interface{}{"name": "kf1.go", "src": kfSrc})})
+	kfBody := recipe.S().C("Func").C("Id", "f").C("Params", recipe.Id("a").C("Bool")).C("Block",
+		recipe.S().C("If", recipe.S().C("Parens", recipe.Id("a").C("Op", "||").C("Id", "Pair").C("Types", recipe.S().C("Int"), recipe.S().C("String")).C("Values").C("Op", "==").C("Id", "x"))).C("Block"))
+	fs = append(fs, finding{Property: "C02", ID: "KF1-gofmt-strips-parens-around-generic-composite-literal", Status: "known", What: kfWhat, Line: "known: property=C02 " + kfWhat,
+		Check: "known_finding_probe", Example: raw(map[string]interface{}{"file": &recipe.File{Ctor: "NewFile", Args: p, Body: []*recipe.Node{kfBody}}})})
+
+	kf2What := "a HeaderComment / PackageComment text containing a form feed (or a carriage return in a multi-line text), e.g. HeaderComment(\"a\\fb\") with no package comment: go/printer counts the form feed inside the comment as a line break, its line accounting is then off by one, the blank line after the headers is dropped and the header becomes the package doc (with \\r\\f in a block comment `*/` and `package` are joined and the doc is detached); the unformatted output is right and gofmt does the same to a hand-written file"
+	fs = append(fs, finding{Property: "C15", ID: "KF2-gofmt-miscounts-lines-after-form-feed-in-comment", Status: "known", What: kf2What, Line: "known: property=C15 " + kf2What,
+		Check: "known_finding_probe", Example: raw(map[string]interface{}{"headers": []string{"HDR0X ", "HDR1X \fA"}, "package": nil, "canonical": "", "body": false})})
+
 	out := map[string]interface{}{
-		"comment":  "Genuine defects of dave/jennifer found by the checks on the pinned tree. status=fixed: repaired by the named fix: commit in /repo; the example is replayed on every run and must pass (it suppresses nothing). No entry has status=known, so no check prints KNOWN-FINDING on the current tree.",
+		"comment":  "Genuine findings made by the checks. status=fixed: a defect of dave/jennifer on the pinned tree, repaired by the named fix: commit in /repo; the example is replayed on every run and must pass (it suppresses nothing). status=known: recorded, not repaired (see DESIGN.md section 11.3): the check prints KNOWN-FINDING while the example still fails, the generators steer away from exactly that input class (internal/knownfind) and count what they avoided; any other violation of the property is still reported.",
 		"findings": fs,
 	}
 	b, _ := json.MarshalIndent(out, "", " ")
